@@ -492,5 +492,6 @@ def run(ctx):
     else:
         r.vacuous_ok = True
         r.note("Terminal.width does not consult the environment")
+    ctx.borrow("c09", "C09-R10", "C15-R13", "'on a plain output no control codes': whether a section's output decorates is the documented function of (stream, formatter disables, formatter forces) - a plain formatter on an ANSI-capable stream does not decorate")
     return ctx.results
 
